@@ -420,6 +420,8 @@ template< typename T, typename F>
 {
    if (mpObject == nullptr)
       throw std::invalid_argument( "no object assigned to iterator");
+   if ((mIndex == EndValue) || (idx >= mpObject->length() - mIndex))
+      throw std::range_error( "string index out of range");
    return (*mpObject)[ mIndex + idx];
 } // FixedStringIterator< T, F>::operator[]
 
